@@ -250,7 +250,12 @@ class Interp:
                 return TOP
             if ua != ub:
                 self.mismatch(op, ua, ub, sym)
-                # keep going with the left operand's unit
+                # keep going with one operand's unit: the left one for sub; for the commutative operations a choice that does not depend on
+                # the order in which the operands are written (the one carrying the larger power of c, then by text)
+                if op != 'sub':
+                    rank = lambda u: (u.get('c', 0), sorted((str(k), v) for k, v in u.items()))
+                    if rank(ub) > rank(ua):
+                        return S(ub)
             return S(ua)
         if op in ('lt', 'le', 'gt', 'ge', 'eq', 'ne'):
             if ua is not None and ub is not None and ua != ub:
@@ -262,8 +267,19 @@ class Interp:
         diff = umul(ua, ub, 1, -1)
         syms = set(str(k) for k in diff)
         klass = 'U-DE' if any(not (k in ('c', 'h')) for k in diff) else ('U-C' if 'c' in diff else 'U-H')
-        key = '%s|%s|%s' % (klass, op, canon(sym)[:120])
-        self.findings.append(Finding(klass, key, '%s of quantities with different units: %s vs %s in %s' % (op, ufmt(ua), ufmt(ub), canon(sym)[:160]), None))
+        txt = canon(sym)
+        if op in ('add', 'max', 'min'):
+            # commutative: the key must not depend on the order in which the operands are written
+            try:
+                from rules.common import split_args as _sa
+                a_ = _sa(txt)
+                if len(a_) == 2 and a_[0] > a_[1]:
+                    txt = '%s(%s, %s)' % (txt[:txt.index('(')], a_[1], a_[0])
+                    ua, ub = ub, ua
+            except Exception:
+                pass
+        key = '%s|%s|%s' % (klass, op, txt[:120])
+        self.findings.append(Finding(klass, key, '%s of quantities with different units: %s vs %s in %s' % (op, ufmt(ua), ufmt(ub), txt[:160]), None))
 
     PURE1 = {'neg': 1, 'abs': 1, 'clone': 1, 'into': 1, 'from': 1, 'as_T': 1, 'unwrap': 1, 'expect': 1, 'to_owned': 1, 'to_vec': 1, 'clip': 1,
              'borrow': 1, 'copied': 1, 'cloned': 1, 'logsafe': 0}
